@@ -343,7 +343,11 @@ def main(tier):
     xprop.run_jobs(run, [dict(path='/verif/xh/h_c02.py', fname='_c02_unbalanced', params={}, timeout=300, self_reach=True, unblock=['open'],
                               label='beyond the symbolic length bound (pooled): 0-2 elements against 17 / 40 / 100, all 36 dtype pairs, both orders',
                               bounds={'lengths': '0, 1, 2 against 17, 40, 100', 'values': 'consecutive runs ending at the top of the common range of the two types, at 2^53 + 130, and at 150',
-                                      'overlap': 'none / first / last / middle / both ends', 'dtype pairs': 'all 36, both argument orders', 'functions': 'jaccarddist and jaccard', 'kind': 'solver-enumerated pool, real kernels run natively'})],
+                                      'overlap': 'none / first / last / middle / both ends', 'dtype pairs': 'all 36, both argument orders', 'functions': 'jaccarddist and jaccard', 'kind': 'solver-enumerated pool, real kernels run natively'}),
+                         dict(path='/verif/xh/h_c02.py', fname='_c02_history', params={}, timeout=300, self_reach=True, unblock=['open'],
+                              label='context-freeness (pooled): two buffers allocated once and refilled in place five times, either function called first, all 36 dtype pairs',
+                              bounds={'buffer lengths': '6v9, 1v1, 3v3, 9v2', 'fills': 'nested, disjoint, nested at the top of the common range, partial overlap, first contents again',
+                                      'dtype pairs': 'all 36', 'functions': 'jaccarddist and jaccard in both call orders, nothing else called in between', 'kind': 'solver-enumerated pool, real kernels run natively'})],
                    rung='X: pooled unbalanced arrays on the real functions')
     run.bounds = {'array lengths': 'n,m <= 3 (quick) / <= 5 for (u8,u8),(u2,u8),(u8,u2), <= 4 other unsigned pairs, <= 3 all 36 pairs (thorough)',
                   'elements': 'every value of the dtype (strictly increasing, non-negative)', 'float stage': 'every N,M,u with N+M < 2^24'}
